@@ -941,3 +941,718 @@ Proof.
   - rewrite <- (inv_position _ _ _ _ _ I). exact A.
   - rewrite (i_hist _ _ _ _ _ I), !app_length in L. lia.
 Qed.
+
+(* ---- Watch: every stream it returns starts in the invariant ---- *)
+
+Definition world0 (hist : list event) (ntrim : nat) (st : sstate) : world :=
+  mkWorld hist ntrim (trimmed_of hist ntrim) st [] [].
+
+Lemma sinv_initial : forall h hist ntrim st,
+  increasing ts_zero hist -> (ntrim <= length hist)%nat -> sh st = h -> sdropped st = false ->
+  ts_zero <= slast st ->
+  sinv h (slast st) (world0 hist ntrim st) [] (after (slast st) hist).
+Proof.
+  intros h hist ntrim st Hinc Hn Hh Hd Hlo. split; [|split; [reflexivity|exact Hlo]].
+  constructor; simpl; auto.
+  - apply before_after.
+  - intros x Hx. rewrite app_nil_r in Hx. eapply before_le; exact Hx.
+  - eapply after_increasing; exact Hinc.
+  - constructor.
+  - intros rest. rewrite Hd. reflexivity.
+Qed.
+
+Lemma find_event_in : forall id l e, find_event id l = Some e -> In e l /\ eid e = id.
+Proof.
+  induction l as [|x t IH]; simpl; intros e H; [discriminate|].
+  destruct (Z.eqb_spec (eid x) id) as [E|E].
+  - inversion H; subst; auto.
+  - destruct (IH _ H); auto.
+Qed.
+
+Lemma find_event_app : forall id a e b,
+  ~ In id (ids a) -> eid e = id -> find_event id (a ++ e :: b) = Some e.
+Proof.
+  induction a as [|x t IH]; simpl; intros e b H E.
+  - rewrite E, Z.eqb_refl; reflexivity.
+  - destruct (Z.eqb_spec (eid x) id) as [E'|E'].
+    + exfalso; apply H; left; exact E'.
+    + apply IH; [intros C; apply H; right; exact C|exact E].
+Qed.
+
+Lemma resolve_token_lo : forall t l cur r lo, resolve_token t l cur = Some r ->
+  increasing lo l -> lo <= cur -> lo <= r.
+Proof.
+  intros [[id|]|] l cur r lo; simpl.
+  - destruct (find_event id l) as [e|] eqn:F; [|discriminate].
+    intros H Hinc _; inversion H; subst. apply find_event_in in F. destruct F as [F _].
+    pose proof (increasing_gt _ _ _ Hinc F). lia.
+  - discriminate.
+  - intros H _ L; inversion H; subst; exact L.
+Qed.
+
+(* start times are timestamps: not below the zero timestamp *)
+Definition at_ok (o : wopts) : Prop := match w_at o with Some z => 0 <= z | None => True end.
+
+Lemma log_increasing : forall hist n, increasing ts_zero hist -> increasing (trimmed_of hist n) (skipn n hist).
+Proof.
+  intros hist n H. rewrite <- (firstn_skipn n hist) in H. apply increasing_app in H. exact (proj2 H).
+Qed.
+
+Lemma trimmed_of_lo : forall hist n, increasing ts_zero hist -> ts_zero <= trimmed_of hist n.
+Proof.
+  intros hist n H. rewrite <- (firstn_skipn n hist) in H. apply increasing_app in H.
+  apply increasing_last_id. exact (proj1 H).
+Qed.
+
+(* Every stream Engine.Watch returns — from now, resumeAfter, startAfter,
+   startAtOperationTime or any combination — starts in the invariant, at the
+   start position z = its s.last: all the theorems of this part apply to it. *)
+Theorem watch_inv : forall h o hist ntrim st,
+  increasing ts_zero hist -> (ntrim <= length hist)%nat -> at_ok o ->
+  watch h o (skipn ntrim hist) (trimmed_of hist ntrim) = Some st ->
+  sinv h (slast st) (world0 hist ntrim st) [] (after (slast st) hist) /\ live st /\ sdropped st = false.
+Proof.
+  intros h o hist ntrim st Hinc Hn Hat W. unfold watch in W.
+  pose proof (log_increasing hist ntrim Hinc) as Hlog.
+  pose proof (trimmed_of_lo hist ntrim Hinc) as Htr.
+  set (tr := trimmed_of hist ntrim) in *. set (log := skipn ntrim hist) in *.
+  assert (H0 : tr <= match last_event log with Some e => eid e | None => tr end).
+  { exact (increasing_last_id _ _ Hlog). }
+  destruct (resolve_token (w_resume o) log _) as [l1|] eqn:R1; [|discriminate].
+  pose proof (resolve_token_lo _ _ _ _ _ R1 Hlog H0) as H1.
+  destruct (resolve_token (w_after o) log l1) as [l2|] eqn:R2; [|discriminate].
+  pose proof (resolve_token_lo _ _ _ _ _ R2 Hlog H1) as H2.
+  inversion W; subst st; clear W. simpl.
+  split; [|split; [split; reflexivity|reflexivity]].
+  apply (sinv_initial h hist ntrim (mkS h _ false false None None None)); auto. simpl.
+  unfold at_ok in Hat. unfold ts_zero in *. destruct (w_at o) as [z|]; lia.
+Qed.
+
+Lemma after_last_id : forall l lo, increasing lo l -> after (last_id lo l) l = [].
+Proof.
+  intros l lo H. rewrite <- (app_nil_r l) at 2. rewrite after_app_le; [reflexivity|].
+  intros x Hx. apply increasing_le_last; assumption.
+Qed.
+
+(* now: after everything committed so far (also on an empty oplog, where the
+   position is Catalog.Trimmed) *)
+Lemma watch_now_start : forall h hist ntrim, increasing ts_zero hist -> (ntrim <= length hist)%nat ->
+  exists st, watch h watch_now (skipn ntrim hist) (trimmed_of hist ntrim) = Some st /\
+             after (slast st) hist = [].
+Proof.
+  intros h hist ntrim Hinc Hn. eexists; split; [reflexivity|]. simpl.
+  change (match last_event (skipn ntrim hist) with Some e => eid e | None => trimmed_of hist ntrim end)
+    with (last_id (trimmed_of hist ntrim) (skipn ntrim hist)).
+  unfold trimmed_of. rewrite <- last_id_app, firstn_skipn. apply after_last_id; exact Hinc.
+Qed.
+
+(* resumeAfter / startAfter with the token of a retained event e: right after e *)
+Lemma watch_resume_start : forall h hist ntrim A e B (after_opt : bool),
+  increasing ts_zero hist -> (ntrim <= length A)%nat -> hist = A ++ e :: B ->
+  let o := if after_opt then mkW None (Some (TokEvent (eid e))) None else mkW (Some (TokEvent (eid e))) None None in
+  exists st, watch h o (skipn ntrim hist) (trimmed_of hist ntrim) = Some st /\ slast st = eid e /\
+             after (slast st) hist = B.
+Proof.
+  intros h hist ntrim A e B after_opt Hinc Hn Hh o.
+  assert (F : find_event (eid e) (skipn ntrim hist) = Some e).
+  { rewrite Hh, skipn_app. replace (ntrim - length A)%nat with 0%nat by lia. simpl.
+    apply find_event_app; [|reflexivity].
+    pose proof (increasing_NoDup _ _ Hinc) as ND. rewrite Hh, ids_app in ND. simpl in ND. intros C.
+    assert (C' : In (eid e) (ids A)).
+    { unfold ids in *. apply in_map_iff in C. destruct C as (x & Hx & Hin).
+      apply in_map_iff. exists x; split; [exact Hx|eapply in_skipn; exact Hin]. }
+    clear -ND C'. induction (ids A) as [|y t IH]; [contradiction|].
+    simpl in ND. inversion ND as [|? ? Hn Hd]; subst. destruct C' as [->|C'].
+    - apply Hn. apply in_or_app. right; left; reflexivity.
+    - apply IH; assumption. }
+  exists (mkS h (eid e) false false None None None).
+  split; [|split; [reflexivity|]].
+  - subst o; destruct after_opt; unfold watch; simpl; rewrite F; reflexivity.
+  - simpl. rewrite Hh in *. replace (A ++ e :: B) with ((A ++ [e]) ++ B) in * by (rewrite <- app_assoc; reflexivity).
+    apply increasing_app in Hinc. destruct Hinc as [H1 H2].
+    rewrite after_app_le.
+    + rewrite last_id_app in H2. unfold last_id at 1 in H2. simpl in H2. apply after_gt; exact H2.
+    + intros x Hx. pose proof (increasing_le_last _ _ _ H1 Hx) as L.
+      rewrite last_id_app in L. unfold last_id at 1 in L. simpl in L. exact L.
+Qed.
+
+(* startAtOperationTime z: exactly the events with an id at or after z are
+   ahead — also those retention has already removed: the stream then reports
+   the loss (lost_is_reported) *)
+Lemma watch_at_start : forall h hist ntrim z, increasing ts_zero hist ->
+  exists st, watch h (mkW None None (Some z)) (skipn ntrim hist) (trimmed_of hist ntrim) = Some st /\
+             slast st = z - 1 /\
+             after (slast st) hist = filter (fun e => Z.leb z (eid e)) hist.
+Proof.
+  intros h hist ntrim z Hinc. eexists; split; [reflexivity|]. split; [reflexivity|]. simpl.
+  rewrite (after_filter _ _ _ Hinc). apply filter_ext. intros e.
+  destruct (Z.ltb_spec (z - 1) (eid e)), (Z.leb_spec z (eid e)); try reflexivity; lia.
+Qed.
+
+(* ---- resume ---- *)
+
+Lemma token_after_event : forall b c s log tr s' e,
+  next_iter b c s log tr = (s', Return (Event e)) -> stok s' = Some (TokEvent (eid e)).
+Proof.
+  intros b c s log tr s' e; unfold next_iter.
+  destruct (is_some (serror s) || sclosed s); [discriminate|].
+  destruct (sdropped s); [discriminate|].
+  destruct (Z.ltb (slast s) tr); [discriminate|].
+  destruct (pending s log) as [|x t]; try discriminate.
+  - destruct b; [discriminate|]. destruct c; discriminate.
+  - destruct (in_scope (sh s) x); [|discriminate]. intros H; inversion H; subst; reflexivity.
+Qed.
+
+(* Watch with resumeAfter = the token of an event e that a stream has delivered
+   (any earlier interleaving) and that is still retained: the new stream — of
+   any scope — starts right after e: the events ahead of it are exactly those
+   committed after e, and delivery / delivery_complete / lost_is_reported apply
+   to it with start position eid e: it continues with the next event. *)
+Theorem resume_continues : forall h h' z w0 post0 script e,
+  sinv h z w0 [] post0 -> script_ok (w_hist w0) script ->
+  let w := exec w0 script in
+  In e (w_deliv w) -> In e (w_log w) ->
+  exists st' A B,
+    w_hist w = A ++ e :: B /\
+    watch h' (mkW (Some (TokEvent (eid e))) None None) (w_log w) (w_trimmed w) = Some st' /\
+    slast st' = eid e /\ after (eid e) (w_hist w) = B /\
+    sinv h' (eid e) (world0 (w_hist w) (w_ntrim w) st') [] B.
+Proof.
+  intros h h' z w0 post0 script e I0 Hok w _ Hlog.
+  destruct (sexec_inv script h z w0 [] post0 I0 Hok) as (mid & post & I & _). fold w in I.
+  unfold w_log in Hlog. apply in_split in Hlog. destruct Hlog as (a & b & Hab).
+  assert (Hh : w_hist w = (firstn (w_ntrim w) (w_hist w) ++ a) ++ e :: b).
+  { rewrite <- (firstn_skipn (w_ntrim w) (w_hist w)) at 1. rewrite Hab, <- app_assoc. reflexivity. }
+  destruct (watch_resume_start h' (w_hist w) (w_ntrim w) (firstn (w_ntrim w) (w_hist w) ++ a) e b false
+              (i_inc _ _ _ _ _ I)) as (st' & W & L & Af); [|exact Hh|].
+  { rewrite app_length, firstn_length_le; [lia|exact (i_ntrim _ _ _ _ _ I)]. }
+  exists st', (firstn (w_ntrim w) (w_hist w) ++ a), b.
+  rewrite (i_trimmed _ _ _ _ _ I). unfold w_log. rewrite L in Af.
+  split; [exact Hh|]. split; [exact W|]. split; [exact L|]. split; [exact Af|].
+  pose proof (increasing_gt _ _ e (i_inc _ _ _ _ _ I)) as Hgt.
+  assert (Hin : In e (w_hist w)) by (rewrite Hh; apply in_or_app; right; left; reflexivity).
+  specialize (Hgt Hin).
+  assert (Est : st' = mkS h' (eid e) false false None None None).
+  { unfold watch in W. simpl in W.
+    destruct (find_event (eid e) (skipn (w_ntrim w) (w_hist w))) as [x|] eqn:F; [|discriminate].
+    apply find_event_in in F. destruct F as [_ F]. inversion W. rewrite F. reflexivity. }
+  rewrite <- Af, <- L.
+  apply sinv_initial; try (rewrite Est; reflexivity); [exact (i_inc _ _ _ _ _ I)|exact (i_ntrim _ _ _ _ _ I)|].
+  rewrite L. lia.
+Qed.
+
+(* ---- invalidate ---- *)
+
+(* After delivering an event that drops the stream's namespace (drops_coll /
+   drops_db: the drop of its collection or the dropDatabase of its database)
+   the next call returns the invalidate event and closes the stream; every
+   later call returns Closed. *)
+Theorem invalidate_after_drop : forall b c s log tr s' e,
+  next_iter b c s log tr = (s', Return (Event e)) -> drops (sh s) e = true ->
+  forall b' c' log' tr',
+  exists s'', next_iter b' c' s' log' tr' = (s'', Return Invalidate) /\
+              sclosed s'' = true /\ stok s'' = Some TokInvalidate /\
+              forall b'' c'' log'' tr'', next_iter b'' c'' s'' log'' tr'' = (s'', Return Closed).
+Proof.
+  intros b c s log tr s' e H D b' c' log' tr'. unfold next_iter in H.
+  destruct (is_some (serror s) || sclosed s) eqn:V; [discriminate|].
+  destruct (sdropped s) eqn:Dr; [discriminate|].
+  destruct (Z.ltb (slast s) tr); [discriminate|].
+  destruct (pending s log) as [|x t]; try discriminate.
+  - destruct b; [discriminate|]. destruct c; discriminate.
+  - destruct (in_scope (sh s) x); [|discriminate]. inversion H; subst; clear H.
+    eexists. split; [|split; [|split]].
+    + unfold next_iter; simpl. rewrite V, D. simpl. reflexivity.
+    + reflexivity.
+    + reflexivity.
+    + intros b'' c'' log'' tr''. unfold next_iter; simpl. rewrite orb_true_r. reflexivity.
+Qed.
+
+(* the invalidate event comes only after such a drop *)
+Lemma invalidate_only_after_drop : forall b c s log tr s',
+  next_iter b c s log tr = (s', Return Invalidate) -> sdropped s = true.
+Proof.
+  intros b c s log tr s'; unfold next_iter.
+  destruct (is_some (serror s) || sclosed s); [discriminate|].
+  destruct (sdropped s); [reflexivity|].
+  destruct (Z.ltb (slast s) tr); [discriminate|].
+  destruct (pending s log) as [|x t]; try discriminate.
+  - destruct b; [discriminate|]. destruct c; discriminate.
+  - destruct (in_scope (sh s) x); discriminate.
+Qed.
+
+(* ================================================================== *)
+(* Part 3 — the concurrent model: no lost wake-up                      *)
+Local Open Scope nat_scope.
+
+Inductive reachable (s0 : cstate) : cstate -> Prop :=
+| reach_init : reachable s0 s0
+| reach_step : forall s l s', reachable s0 s -> cstep l s = Some s' -> reachable s0 s'.
+
+Definition initial (s : cstate) : Prop := exists log tr st writers, s = cinit log tr st writers.
+
+Definition consumer_waiting (s : cstate) : Prop := c_cons s = CParked.
+Definition signal_full (s : cstate) : Prop := c_sig s = true.
+(* a committer has replaced the catalog and has not yet done its broadcast,
+   and the stream is in e.streams: its non-blocking send is still to come *)
+Definition committer_about_to_signal (s : cstate) : Prop :=
+  c_reg s = true /\ existsb is_published (c_writers s) = true.
+Definition closer_about_to_signal (s : cstate) : Prop := c_closer s = KMarked.
+
+(* a fresh pass of the loop would park again: nothing to do *)
+Definition quiescent (s : cstate) : Prop := snd (next_iter true false (c_st s) (c_log s) (c_trimmed s)) = Park.
+
+(* the stream is open, retention has not passed it, and an event of its scope
+   lies ahead of it in the oplog *)
+Definition undelivered_matching (s : cstate) : Prop :=
+  sclosed (c_st s) = false /\
+  Z.ltb (slast (c_st s)) (c_trimmed s) = false /\
+  exists e, In e (pending (c_st s) (c_log s)) /\ in_scope (sh (c_st s)) e = true.
+
+Record cinv (s : cstate) : Prop := mkCinv {
+  k_reg : c_reg s = false -> sclosed (c_st s) = true;
+  k_marked : c_closer s = KMarked -> sclosed (c_st s) = true;
+  k_chan : c_chclosed s = true -> sclosed (c_st s) = true;
+  k_wake : c_cons s = CParked ->
+           quiescent s \/ signal_full s \/ c_chclosed s = true \/
+           committer_about_to_signal s \/ closer_about_to_signal s
+}.
+
+Lemma next_iter_block_ctx : forall c s log tr, next_iter true c s log tr = next_iter true false s log tr.
+Proof.
+  intros c s log tr; unfold next_iter.
+  destruct (is_some (serror s) || sclosed s); [reflexivity|].
+  destruct (sdropped s); [reflexivity|].
+  destruct (Z.ltb (slast s) tr); [reflexivity|].
+  destruct (pending s log) as [|e t]; reflexivity.
+Qed.
+
+Lemma next_iter_park : forall b c s log tr s', next_iter b c s log tr = (s', Park) -> b = true /\ s' = s.
+Proof.
+  intros b c s log tr s'; unfold next_iter.
+  destruct (is_some (serror s) || sclosed s); [discriminate|].
+  destruct (sdropped s); [discriminate|].
+  destruct (Z.ltb (slast s) tr); [discriminate|].
+  destruct (pending s log) as [|e t]; try discriminate.
+  - destruct b; [intros H; inversion H; auto|]. destruct c; discriminate.
+  - destruct (in_scope (sh s) e); discriminate.
+Qed.
+
+Lemma next_iter_closed_mono : forall b c s log tr, sclosed s = true -> sclosed (fst (next_iter b c s log tr)) = true.
+Proof.
+  intros b c s log tr H; unfold next_iter. rewrite H, orb_true_r. exact H.
+Qed.
+
+Lemma next_iter_closes : forall b c s log tr s' o, next_iter b c s log tr = (s', Return o) ->
+  (o = Invalidate \/ o = Lost) -> sclosed s' = true.
+Proof.
+  intros b c s log tr s' o; unfold next_iter.
+  destruct (is_some (serror s) || sclosed s); [intros H [E|E]; inversion H; subst; discriminate|].
+  destruct (sdropped s); [intros H _; inversion H; reflexivity|].
+  destruct (Z.ltb (slast s) tr); [intros H _; inversion H; reflexivity|].
+  destruct (pending s log) as [|e t].
+  - destruct b; [discriminate|]. destruct c; intros H [E|E]; inversion H; subst; discriminate.
+  - destruct (in_scope (sh s) e); [|discriminate]. intros H [E|E]; inversion H; subst; discriminate.
+Qed.
+
+Lemma closed_not_quiescent : forall c s log tr, sclosed s = true -> snd (next_iter true c s log tr) <> Park.
+Proof. intros c s log tr H; unfold next_iter. rewrite H, orb_true_r. discriminate. Qed.
+
+Lemma existsb_set_nth_published : forall ws i w, nth_error ws i = Some w ->
+  existsb is_published (set_nth i WPublished ws) = true.
+Proof.
+  induction ws as [|x t IH]; intros [|i] w H; simpl in *; try discriminate.
+  - reflexivity.
+  - rewrite (IH _ _ H). apply orb_true_r.
+Qed.
+
+Lemma existsb_published_nth : forall ws, existsb is_published ws = true ->
+  exists i, nth_error ws i = Some WPublished.
+Proof.
+  induction ws as [|x t IH]; simpl; intros H; [discriminate|].
+  destruct x; simpl in H; try (destruct (IH H) as [i Hi]; exists (S i); exact Hi).
+  exists 0; reflexivity.
+Qed.
+
+Lemma cinv_initial : forall s, initial s -> cinv s.
+Proof.
+  intros s (log & tr & st & ws & ->). constructor; simpl; try discriminate.
+Qed.
+
+Lemma cinv_step : forall l s s', cinv s -> cstep l s = Some s' -> cinv s'.
+Proof.
+  intros l s s' [K1 K2 K3 KW] H. destruct l; simpl in H.
+  - (* LCall *)
+    destruct (c_cons s); inversion H; subst; clear H. constructor; simpl; auto; discriminate.
+  - (* LCheck *)
+    destruct (c_cons s) as [|b| |o] eqn:Ec; try discriminate.
+    destruct (next_iter b (c_ctx s) (c_st s) (c_log s) (c_trimmed s)) as [st' [o| |]] eqn:N; inversion H; subst; clear H.
+    + pose proof (next_iter_closed_mono b (c_ctx s) (c_st s) (c_log s) (c_trimmed s)) as M. rewrite N in M. simpl in M.
+      constructor; simpl; auto; try discriminate.
+      destruct o; auto; intros _; eapply next_iter_closes; eauto.
+    + pose proof (next_iter_closed_mono b (c_ctx s) (c_st s) (c_log s) (c_trimmed s)) as M. rewrite N in M. simpl in M.
+      constructor; simpl; auto; discriminate.
+    + destruct (next_iter_park _ _ _ _ _ _ N) as [-> ->].
+      constructor; simpl; auto. intros _. left. unfold quiescent; simpl.
+      rewrite <- (next_iter_block_ctx (c_ctx s)), N. reflexivity.
+  - (* LWake *)
+    destruct (c_cons s); try discriminate.
+    destruct (c_sig s).
+    + inversion H; subst; clear H. constructor; simpl; auto; discriminate.
+    + destruct (c_chclosed s); inversion H; subst; clear H. constructor; simpl; auto; discriminate.
+  - (* LWakeCtx *)
+    destruct (c_cons s); try discriminate. destruct (c_ctx s); inversion H; subst; clear H.
+    assert (E : sclosed (wake_ctx (c_st s)) = sclosed (c_st s)).
+    { unfold wake_ctx; destruct (serror (c_st s)); reflexivity. }
+    constructor; simpl; rewrite ?E; auto; discriminate.
+  - (* LReturn *)
+    destruct (c_cons s); inversion H; subst; clear H. constructor; simpl; auto; discriminate.
+  - (* LPublish *)
+    destruct (c_alive s && negb (existsb is_published (c_writers s))) eqn:G; [|discriminate].
+    apply andb_prop in G; destruct G as [_ G]. apply negb_true_iff in G.
+    destruct (nth_error (c_writers s) i) as [[evs k| |]|] eqn:Nw; inversion H; subst; clear H.
+    constructor; simpl; auto. intros P. specialize (KW P).
+    destruct (c_reg s) eqn:R.
+    + right; right; right; left. split; [simpl; auto|]. simpl. eapply existsb_set_nth_published; eauto.
+    + specialize (K1 eq_refl). destruct KW as [Q|[Q|[Q|[[Q _]|Q]]]].
+      * exfalso. eapply closed_not_quiescent; [exact K1|exact Q].
+      * right; left; exact Q.
+      * right; right; left; exact Q.
+      * unfold committer_about_to_signal in *; congruence.
+      * right; right; right; right; exact Q.
+  - (* LSignal *)
+    destruct (nth_error (c_writers s) i) as [[evs k| |]|] eqn:Nw; inversion H; subst; clear H.
+    constructor; simpl; auto. intros P. specialize (KW P).
+    destruct KW as [Q|[Q|[Q|[[Q _]|Q]]]].
+    + left; exact Q.
+    + right; left. unfold signal_full in *; simpl. rewrite Q; reflexivity.
+    + right; right; left; exact Q.
+    + right; left. unfold signal_full; simpl. rewrite Q. apply orb_true_r.
+    + right; right; right; right; exact Q.
+  - (* LCloseMark *)
+    destruct (c_closer s) eqn:Ek; try discriminate.
+    destruct (sclosed (c_st s)) eqn:Ecl; inversion H; subst; clear H.
+    + constructor; simpl; auto; try discriminate.
+      intros P. destruct (KW P) as [Q|[Q|[Q|[Q|Q]]]].
+      * left; exact Q.
+      * right; left; exact Q.
+      * right; right; left; exact Q.
+      * right; right; right; left; exact Q.
+      * unfold closer_about_to_signal in Q. congruence.
+    + assert (E : sclosed (close_stream (c_st s)) = true).
+      { unfold close_stream. rewrite Ecl. reflexivity. }
+      constructor; simpl; auto. intros _. right; right; right; right. reflexivity.
+  - (* LCloseSend *)
+    destruct (c_closer s) eqn:Ek; inversion H; subst; clear H.
+    constructor; simpl; auto; try discriminate. intros _. right; left. reflexivity.
+  - (* LCancel *)
+    inversion H; subst; clear H. constructor; simpl; auto.
+  - (* LEngineClose *)
+    destruct (c_alive s && negb (existsb is_published (c_writers s)) && negb (is_marked (c_closer s))); [|discriminate].
+    destruct (c_reg s && negb (sclosed (c_st s))); inversion H; subst; clear H.
+    + constructor; simpl; auto.
+    + constructor; simpl; auto.
+Qed.
+
+Lemma cinv_reachable : forall s0 s, initial s0 -> reachable s0 s -> cinv s.
+Proof.
+  intros s0 s Hi R; induction R.
+  - apply cinv_initial; exact Hi.
+  - eapply cinv_step; eauto.
+Qed.
+
+Lemma matching_not_quiescent : forall s, undelivered_matching s -> ~ quiescent s.
+Proof.
+  intros s (_ & NL & e & Hin & _) Q. unfold quiescent, next_iter in Q.
+  destruct (is_some (serror (c_st s)) || sclosed (c_st s)); [discriminate|].
+  destruct (sdropped (c_st s)); [discriminate|].
+  rewrite NL in Q. destruct (pending (c_st s) (c_log s)) as [|x t]; [contradiction|].
+  destruct (in_scope (sh (c_st s)) x); discriminate.
+Qed.
+
+(* THE WAKE-UP INVARIANT.  In every reachable state of the concurrent model
+   (any number of committers, Close, cancellation, Engine.Close, in any
+   interleaving of their atomic steps): if the consumer is parked in the
+   `select` while an event of its scope lies ahead of it in the published
+   oplog, then the signal buffer is full or a committer that has published is
+   still going to do its (non-blocking) send. *)
+Theorem no_lost_wakeup : forall s0 s, initial s0 -> reachable s0 s ->
+  consumer_waiting s -> undelivered_matching s ->
+  signal_full s \/ committer_about_to_signal s.
+Proof.
+  intros s0 s Hi R W U. pose proof (cinv_reachable _ _ Hi R) as [K1 K2 K3 KW].
+  destruct U as [Hop U']. assert (U : undelivered_matching s) by (split; assumption).
+  destruct (KW W) as [Q|[Q|[Q|[Q|Q]]]]; auto.
+  - exfalso; eapply matching_not_quiescent; eauto.
+  - specialize (K3 Q). congruence.
+  - specialize (K2 Q). congruence.
+Qed.
+
+(* the same for every reason to wake up: a parked consumer whose fresh pass
+   would not park again always has a wake-up pending *)
+Theorem no_lost_wakeup_general : forall s0 s, initial s0 -> reachable s0 s ->
+  consumer_waiting s -> ~ quiescent s ->
+  signal_full s \/ c_chclosed s = true \/ committer_about_to_signal s \/ closer_about_to_signal s.
+Proof.
+  intros s0 s Hi R W NQ. pose proof (cinv_reachable _ _ Hi R) as [K1 K2 K3 KW].
+  destruct (KW W) as [Q|Q]; [contradiction|exact Q].
+Qed.
+
+(* the `select` of the parked consumer has a ready case *)
+Definition wake_enabled (s : cstate) : Prop :=
+  exists s', cstep LWake s = Some s' \/ cstep LWakeCtx s = Some s'.
+
+Definition is_send (l : label) : Prop := (exists i, l = LSignal i) \/ l = LCloseSend.
+
+Definition wake_reason (s : cstate) : Prop :=
+  undelivered_matching s \/          (* a matching commit has been published *)
+  sclosed (c_st s) = true \/         (* Stream.Close / Engine.Close / invalidation closed the stream *)
+  c_ctx s = true.                    (* the context is cancelled *)
+
+(* "Without stalls", as enabledness: a blocked consumer with a reason to wake
+   can leave the select now, or the one pending non-blocking send — a step that
+   is always enabled — makes it so. *)
+Theorem waiting_consumer_enabled : forall s0 s, initial s0 -> reachable s0 s ->
+  consumer_waiting s -> wake_reason s ->
+  wake_enabled s \/
+  exists l s1, is_send l /\ cstep l s = Some s1 /\ wake_enabled s1.
+Proof.
+  intros s0 s Hi R W Why. unfold consumer_waiting in W.
+  destruct (c_ctx s) eqn:Cx.
+  { left. eexists. right. simpl. rewrite W, Cx. reflexivity. }
+  assert (NQ : ~ quiescent s).
+  { destruct Why as [U|[C|C]]; [apply matching_not_quiescent; exact U| |congruence].
+    intros Q. eapply closed_not_quiescent; [exact C|exact Q]. }
+  destruct (no_lost_wakeup_general _ _ Hi R W NQ) as [Q|[Q|[[Q1 Q2]|Q]]].
+  - left. eexists. left. simpl. rewrite W. unfold signal_full in Q. rewrite Q. reflexivity.
+  - left. destruct (c_sig s) eqn:Sg; eexists; left; simpl; rewrite W, Sg, ?Q; reflexivity.
+  - right. destruct (existsb_published_nth _ Q2) as [i Hi'].
+    eexists (LSignal i), _. split; [left; exists i; reflexivity|]. split.
+    + simpl. rewrite Hi'. reflexivity.
+    + eexists. left. simpl. rewrite W, Q1, orb_true_r. reflexivity.
+  - right. eexists LCloseSend, _. split; [right; reflexivity|]. split.
+    + simpl. unfold closer_about_to_signal in Q. rewrite Q. reflexivity.
+    + eexists. left. simpl. rewrite W. reflexivity.
+Qed.
+
+(* a ready wake-up stays ready until the consumer takes it: no other actor's
+   step disables it *)
+Theorem wake_enabled_stable : forall l s s', cstep l s = Some s' ->
+  l <> LWake -> l <> LWakeCtx -> wake_enabled s -> wake_enabled s'.
+Proof.
+  intros l s s' H N1 N2 [s1 E].
+  assert (P : c_cons s = CParked).
+  { destruct E as [E|E]; simpl in E; destruct (c_cons s); try discriminate; reflexivity. }
+  assert (R : c_sig s = true \/ (c_sig s = false /\ c_chclosed s = true) \/ c_ctx s = true).
+  { destruct E as [E|E]; simpl in E; rewrite P in E.
+    - destruct (c_sig s); auto. destruct (c_chclosed s); [auto|discriminate].
+    - destruct (c_ctx s); [auto|discriminate]. }
+  assert (G : c_cons s' = CParked /\ (c_sig s' = true \/ c_chclosed s' = true \/ c_ctx s' = true)).
+  { destruct l; simpl in H; try congruence; rewrite ?P in H; try discriminate.
+    - destruct (c_alive s && negb (existsb is_published (c_writers s))); [|discriminate].
+      destruct (nth_error (c_writers s) i) as [[evs k| |]|]; inversion H; subst; simpl. intuition.
+    - destruct (nth_error (c_writers s) i) as [[evs k| |]|]; inversion H; subst; simpl.
+      split; [simpl; auto|]. destruct R as [R|[[_ R]|R]]; rewrite ?R; auto.
+    - destruct (c_closer s); try discriminate.
+      destruct (sclosed (c_st s)); inversion H; subst; simpl; intuition.
+    - destruct (c_closer s); inversion H; subst; simpl; auto.
+    - inversion H; subst; simpl; auto.
+    - destruct (c_alive s && negb (existsb is_published (c_writers s)) && negb (is_marked (c_closer s))); [|discriminate].
+      destruct (c_reg s && negb (sclosed (c_st s))); inversion H; subst; simpl; intuition. }
+  destruct G as [P' R']. unfold wake_enabled; simpl. rewrite P'.
+  destruct (c_sig s'); [eexists; left; reflexivity|].
+  destruct (c_chclosed s'); [eexists; left; reflexivity|].
+  destruct (c_ctx s'); [eexists; right; reflexivity|].
+  destruct R' as [R'|[R'|R']]; discriminate.
+Qed.
+
+(* woken by the next commit: the two steps of any committer leave a parked
+   consumer of a registered stream with a full signal buffer *)
+Corollary commit_wakes : forall s i s1 s2,
+  consumer_waiting s -> c_reg s = true ->
+  cstep (LPublish i) s = Some s1 -> cstep (LSignal i) s1 = Some s2 ->
+  exists s3, cstep LWake s2 = Some s3 /\ c_cons s3 = CRunning true.
+Proof.
+  intros s i s1 s2 W Rg H1 H2. unfold consumer_waiting in W. simpl in H1, H2.
+  destruct (c_alive s && negb (existsb is_published (c_writers s))); [|discriminate].
+  destruct (nth_error (c_writers s) i) as [[evs k| |]|]; inversion H1; subst; clear H1. simpl in H2.
+  destruct (nth_error (set_nth i WPublished (c_writers s)) i) as [[evs' k'| |]|]; inversion H2; subst; clear H2.
+  simpl. rewrite W, Rg, orb_true_r. eexists; split; reflexivity.
+Qed.
+
+
+(* ================================================================== *)
+(* Part 4 — non-vacuity, and the two former defect witnesses repaired  *)
+
+Local Open Scope Z_scope.
+
+Definition ev0 : event := mkEvent 0 "d" "c" OpInsert.
+Definition ev1 : event := mkEvent 1 "d" "c" OpInsert.
+Definition ev2 : event := mkEvent 2 "d" "k" OpInsert.
+Definition ev3 : event := mkEvent 3 "d" "c" OpDrop.
+Definition ev4 : event := mkEvent 4 "d" "c" OpInsert.
+Definition hcoll : handle := ("d"%string, "c"%string).
+Definition st_fresh : sstate := mkS hcoll ts_zero false false None None None.
+Definition st_after0 : sstate := mkS hcoll 0 false false None None None.
+Definition w_ex : world := world0 [ev0] 0 st_after0.
+
+Lemma ex_start : watch hcoll watch_now [ev0] ts_zero = Some st_after0 /\ sinv hcoll 0 w_ex [] [].
+Proof.
+  split; [reflexivity|].
+  apply (sinv_initial hcoll [ev0] 0%nat st_after0); simpl; auto; unfold ts_zero; lia.
+Qed.
+
+Definition script_ex : list sstep :=
+  [SCommit [ev1; ev2]; SIter true false; SCommit [ev3; ev4]; SIter false false; SIter false false;
+   SIter false false; SIter false false; SIter false false].
+
+Lemma script_ex_ok : script_ok (w_hist w_ex) script_ex.
+Proof. simpl. unfold ts_zero. repeat split; lia. Qed.
+
+(* delivery: a collection stream started after event 0 sees 1, skips 2 (other
+   collection), delivers the drop 3, is invalidated and never delivers 4 *)
+Lemma ex_delivery :
+  w_deliv (exec w_ex script_ex) = [ev1; ev3] /\
+  expected hcoll (after 0 (w_hist (exec w_ex script_ex))) = [ev1; ev3] /\
+  w_outs (exec w_ex script_ex) =
+    [Return (Event ev1); Continue; Return (Event ev3); Return Invalidate; Return Closed; Return Closed].
+Proof. vm_compute. auto. Qed.
+
+(* lost: retention passes the stream *)
+Definition script_lost : list sstep := [SCommit [ev1; ev2]; STrim 2].
+Lemma ex_lost :
+  script_ok (w_hist w_ex) script_lost /\
+  let w := exec w_ex script_lost in
+  live (w_st w) /\ sdropped (w_st w) = false /\ (position w < w_ntrim w)%nat /\
+  snd (next_iter false false (w_st w) (w_log w) (w_trimmed w)) = Return Lost.
+Proof.
+  split; [simpl; unfold ts_zero; repeat split; lia|].
+  vm_compute. repeat split; auto.
+Qed.
+
+(* completeness: retention removes the events BEHIND the stream, its reference
+   event (1) included; everything ahead is still delivered *)
+Definition script_complete : list sstep := [SCommit [ev1; ev2]; SIter false false; STrim 2; SCommit [ev4]].
+Lemma ex_complete :
+  script_ok (w_hist w_ex) script_complete /\
+  let w := exec w_ex script_complete in
+  (w_ntrim w <= position w)%nat /\ serror (w_st w) = None /\ sclosed (w_st w) = false /\
+  w_ntrim w = 2%nat /\ w_trimmed w = 1 /\
+  w_deliv w = [ev1] /\ w_deliv (drain 4 w) = [ev1; ev4] /\
+  expected hcoll (after 0 (w_hist w)) = [ev1; ev4].
+Proof.
+  split; [simpl; unfold ts_zero; repeat split; lia|].
+  vm_compute. repeat split; auto.
+Qed.
+
+(* FORMER DEFECT 1 (C09:silent-skip-unanchored-stream), same script as the old
+   refutation witness: a stream opened on an EMPTY oplog, two inserts, retention
+   removes the first before the stream reads it.  Now: Lost, nothing skipped. *)
+Definition skip_script : list sstep :=
+  [SCommit [ev0; ev1]; STrim 1; SIter false false; SIter false false].
+
+Lemma lost_is_reported_repaired :
+  watch hcoll watch_now [] ts_zero = Some st_fresh /\ script_ok [] skip_script /\
+  let w := exec (world0 [] 0 st_fresh) skip_script in
+  w_outs w = [Return Lost; Return Closed] /\ w_deliv w = [] /\
+  serror (w_st w) = Some ELost /\ sclosed (w_st w) = true.
+Proof.
+  split; [reflexivity|]. split; [simpl; unfold ts_zero; repeat split; lia|].
+  vm_compute. auto.
+Qed.
+
+(* ... and startAtOperationTime at the first retained event *)
+Lemma lost_is_reported_repaired_start_at :
+  exists st0, watch hcoll (mkW None None (Some 0)) [ev0; ev1] ts_zero = Some st0 /\
+  let w := exec (world0 [ev0; ev1] 0 st0) [STrim 1; SIter false false] in
+  w_outs w = [Return Lost] /\ w_deliv w = [].
+Proof. eexists; split; [reflexivity|]. vm_compute. auto. Qed.
+
+(* FORMER DEFECT 2 (C09:spurious-lost-anchor-trimmed), same script as the old
+   refutation witness: the stream's reference event (0, behind it) is removed
+   while event 1 is retained.  Now: event 1 is delivered. *)
+Lemma delivery_complete_repaired :
+  watch hcoll watch_now [ev0] ts_zero = Some st_after0 /\
+  let w := exec w_ex [SCommit [ev1]; STrim 1] in
+  (w_ntrim w <= position w)%nat /\ In ev1 (w_log w) /\
+  snd (next_iter false false (w_st w) (w_log w) (w_trimmed w)) = Return (Event ev1) /\
+  w_deliv (drain 2 w) = [ev1] /\ expected hcoll (after 0 (w_hist w)) = [ev1].
+Proof.
+  split; [reflexivity|]. vm_compute. repeat split; auto.
+Qed.
+
+(* resume: a database stream resumed from the token of delivered event 1, which
+   is still retained (here: after a trim of event 0 only) *)
+Definition script_resume : list sstep := [SCommit [ev1; ev2]; SIter false false; STrim 1; SCommit [ev4]].
+Lemma ex_resume :
+  let w := exec w_ex script_resume in
+  In ev1 (w_deliv w) /\ In ev1 (w_log w) /\
+  exists st', watch ("d"%string, ""%string) (mkW (Some (TokEvent 1)) None None) (w_log w) (w_trimmed w) = Some st' /\
+              snd (next st' (w_log w) (w_trimmed w)) = Ok (Event ev2).
+Proof. vm_compute. repeat split; auto. eexists; split; reflexivity. Qed.
+
+(* invalidate *)
+Lemma ex_invalidate :
+  exists s', next_iter false false (mkS hcoll 2 false false None None None) [ev2; ev3; ev4] ts_zero
+             = (s', Return (Event ev3)) /\ drops hcoll ev3 = true.
+Proof. eexists; split; reflexivity. Qed.
+
+Local Open Scope nat_scope.
+
+(* concurrent: the window between the consumer's unlock and its select *)
+Definition c_ex0 : cstate := cinit [ev0] ts_zero st_after0 [([ev1], 0)].
+
+(* check finds nothing -> (unlock) -> commit publishes -> consumer is parked
+   with a matching event ahead and an empty buffer: the committer's send is pending *)
+Lemma ex_window :
+  exists s, crun [LCall true; LCheck; LPublish 0] c_ex0 = Some s /\
+            consumer_waiting s /\ undelivered_matching s /\ c_sig s = false /\
+            committer_about_to_signal s.
+Proof.
+  eexists; split; [vm_compute; reflexivity|]. unfold consumer_waiting, undelivered_matching, committer_about_to_signal.
+  simpl. repeat split; auto. exists ev1. split; [left; reflexivity|reflexivity].
+Qed.
+
+(* ... the send fills the buffer, the select fires, the next pass delivers *)
+Lemma ex_wakeup :
+  exists s, crun [LCall true; LCheck; LPublish 0; LSignal 0; LWake; LCheck] c_ex0 = Some s /\
+            c_cons s = CDone (Event ev1) /\ c_sig s = false.
+Proof. eexists; split; [vm_compute; reflexivity|]. split; reflexivity. Qed.
+
+(* a parked consumer that retention passes is woken by that commit and gets Lost *)
+Lemma ex_trim_wakes :
+  exists s, crun [LCall true; LCheck; LPublish 0; LSignal 0; LWake; LCheck]
+                 (cinit [ev0] ts_zero st_after0 [([ev1; ev2], 2)]) = Some s /\
+            c_cons s = CDone Lost /\ c_trimmed s = 1%Z.
+Proof. eexists; split; [vm_compute; reflexivity|]. split; reflexivity. Qed.
+
+(* the signal arrives BEFORE the consumer reaches the select: it is buffered *)
+Lemma ex_signal_before_select :
+  exists s, crun [LCall true; LPublish 0; LSignal 0; LCheck; LReturn; LCall true; LCheck; LWake; LCheck] c_ex0 = Some s /\
+            c_cons s = CParked /\ c_sig s = false /\ quiescent s.
+Proof. eexists; split; [vm_compute; reflexivity|]. repeat split. Qed.
+
+(* Close, cancellation and Engine.Close wake a parked consumer *)
+Lemma ex_close_wakes :
+  (exists s, crun [LCall true; LCheck; LCloseMark; LCloseSend; LWake; LCheck] c_ex0 = Some s /\ c_cons s = CDone Closed) /\
+  (exists s, crun [LCall true; LCheck; LCancel; LWakeCtx] c_ex0 = Some s /\ c_cons s = CDone Closed /\ serror (c_st s) = Some ECtx) /\
+  (exists s, crun [LCall true; LCheck; LEngineClose; LWake] c_ex0 = Some s /\ c_cons s = CDone Closed /\ sclosed (c_st s) = true).
+Proof.
+  split; [|split]; eexists; (split; [vm_compute; reflexivity|]); repeat split.
+Qed.
+
+Lemma reachable_crun : forall ls s0 s, crun ls s0 = Some s -> forall r, reachable r s0 -> reachable r s.
+Proof.
+  induction ls as [|l t IH]; simpl; intros s0 s H r R.
+  - inversion H; subst; exact R.
+  - destruct (cstep l s0) as [s1|] eqn:E; [|discriminate].
+    eapply IH; [exact H|]. econstructor; eauto.
+Qed.
+
+Lemma ex_window_reachable :
+  exists s, initial c_ex0 /\ reachable c_ex0 s /\ consumer_waiting s /\ undelivered_matching s.
+Proof.
+  destruct ex_window as (s & H & W & U & _).
+  exists s. split; [eexists _, _, _, _; reflexivity|]. split; [|auto].
+  eapply reachable_crun; [exact H|constructor].
+Qed.
